@@ -25,7 +25,7 @@ BOUNDS = {'quick': 'all 2-command chains over the shape alphabet + 300 random ch
 
 ARGSHAPES = [([], {}), ([1], {}), ([1, 'b', None], {}), ([], {'k': 3}), ([0], {'k': None, 'z': [1, 2]}), ([False, ''], {'kw': {'n': 1}}), ([[5, 6], {'m': 1}], {})]
 RESUMES = [[True, 'rv'], [True, None], [True, 0], [False, None], [True, {'d': [1]}], [True, '@ANYEQ'], [True, '@NOBOOL'], [True, '@T12'], [True, '@T0'], [True, '@EXCOBJ']]  # ('@EXCOBJ': the wake-up value is an exception object -- a value, nothing is raised)
-TERMINALS = [['value', None], ['value', 7], ['value', ''], ['value', '@AWAITABLE'], ['value', '@HASRESULT'], ['stop', 'r', True], ['stop', 0, False], ['unsucc', 3], ['unsucc', 0], ['kill', 'bye'], ['kill', '@NOTEXT'], ['raise', 'err']]  # (an exit code may well be 0 or falsy: unsuccessful all the same)
+TERMINALS = [['value', None], ['value', 7], ['value', ''], ['value', '@AWAITABLE'], ['value', '@HASRESULT'], ['value', '@NOCOPY'], ['stop', 'r', True], ['stop', 0, False], ['unsucc', 3], ['unsucc', 0], ['kill', 'bye'], ['kill', '@NOTEXT'], ['raise', 'err']]  # (an exit code may well be 0 or falsy: unsuccessful all the same)
 
 
 def _chains(tier, seed):
